@@ -41,7 +41,7 @@ def make(sid, specs, order, allsym, full_index, orders):
         if fault is None:
             return True, info
         return ctx.known(PID, {"part": "fsck"}, dict(env, fault=fault)), info
-    return Ob("C08:" + sid, body, timeout=300, tags={"part": "fsck"}, text="%s [%s]" % (" + ".join(s.text() for s in specs), order))
+    return Ob("C08:" + sid, body, timeout=(1500 if "big" in sid or "55000" in sid else 300), tags={"part": "fsck"}, text="%s [%s]" % (" + ".join(s.text() for s in specs), order))
 
 
 def obligations(tier, seed):
